@@ -79,3 +79,36 @@ fn run_qft_inner(case: &Value) -> Value {
     json!({"r": if errs.is_empty() { "ok" } else { "err" }, "errs": errs, "gates": gates, "gates_same": gates == gates_b,
            "builder_same": builder_same, "trig": trig, "trig_neg": trig_neg, "outs": outs, "cols": cols, "round": round, "round_one": round_one})
 }
+
+
+/// op "qft_big": registers of 12+ qubits (beyond what is evaluated inside Coq). Columns of qft / iqft against the DFT written out here:
+/// amplitude(x) = (1/sqrt 2)^m * exp(+-2 pi i J(a) J(x) / 2^m) where x and a agree outside the listed qubits, J reading the first listed
+/// qubit as the most significant bit.
+pub fn run_qft_big(case: &Value) -> Value {
+    let n = vu(&case["n"]);
+    let qs = vus(&case["qs"]);
+    let inverse = case["inverse"].as_bool().unwrap_or(false);
+    quant_iron::verif_hooks::PARALLEL_THRESHOLD.set(10);
+    let circ = match Circuit::try_from(sub(inverse, &qs, n)) { Ok(c) => c, Err(e) => return json!({"r": "build_err", "e": format!("{:?}", e)}) };
+    let m = qs.len();
+    let mask: usize = qs.iter().fold(0usize, |acc, &q| acc | (1usize << q));
+    let jval = |x: usize| -> u64 { qs.iter().fold(0u64, |acc, &q| (acc << 1) | ((x >> q) & 1) as u64) };
+    let scale = (0.5f64).sqrt().powi(m as i32);
+    let mut worst = 0.0f64; let mut at = (0usize, 0usize);
+    for a in case["cols"].as_array().unwrap() {
+        let a = vu(a);
+        let mut v = vec![Complex::new(0.0, 0.0); 1usize << n]; v[a] = Complex::new(1.0, 0.0);
+        let out = match run_on(&circ, n, &v) { Ok(s) => s, Err(e) => return json!({"r": "err", "e": format!("{:?}", e)}) };
+        let ja = jval(a);
+        for x in 0..(1usize << n) {
+            let want = if (x & !mask) == (a & !mask) {
+                let e = (ja as u128 * jval(x) as u128) % (1u128 << m);
+                let ang = 2.0 * std::f64::consts::PI * (e as f64) / ((1u128 << m) as f64) * if inverse { -1.0 } else { 1.0 };
+                Complex::new(scale * ang.cos(), scale * ang.sin())
+            } else { Complex::new(0.0, 0.0) };
+            let d = (out.state_vector[x] - want).norm();
+            if d > worst || d.is_nan() { worst = d; at = (a, x); }
+        }
+    }
+    json!({"r": "ok", "maxdiff": worst, "col": at.0, "row": at.1})
+}
